@@ -202,7 +202,8 @@ def group_sentence(rnd, d):
             for _ in range(count_for(rnd, f["arity"], f["kind"])):
                 groups.append(leaf_occ(rnd, f))
         elif k == "alt":
-            n = {"one": 1, "opt": rnd.choice([0, 1]), "many": rnd.choice([0, 1, 2, 3]), "some": rnd.choice([1, 2, 3])}[f["arity"]]
+            n = {"one": 1, "opt": rnd.choice([0, 1]), "many": rnd.choice([0, 1, 2, 3]), "some": rnd.choice([1, 2, 3]),
+                 "count": rnd.choice([0, 1, 2, 3]), "fallback": rnd.choice([0, 1]), "fallback_with": rnd.choice([0, 1])}[f["arity"]]
             for _ in range(n):
                 br = rnd.choice(f["branches"])
                 items = []
@@ -218,7 +219,8 @@ def group_sentence(rnd, d):
                     items += leaf_occ(rnd, it)
                 groups.append(items)
         else:
-            n = {"one": 1, "opt": rnd.choice([0, 1]), "many": rnd.choice([0, 1, 2, 3])}[f["arity"]]
+            n = {"one": 1, "opt": rnd.choice([0, 1]), "many": rnd.choice([0, 1, 2, 3]), "some": rnd.choice([1, 2, 3]),
+                 "count": rnd.choice([0, 1, 2, 3])}[f["arity"]]
             for _ in range(n):
                 if f["head"]["kind"] == "cmd":
                     items = [it_word(rnd.choice(f["head"]["names"]))]
